@@ -15,6 +15,7 @@ import (
 	"verif/internal/c02"
 	"verif/internal/c08"
 	"verif/internal/c10"
+	"verif/internal/c20"
 	"verif/internal/chancheck"
 	"verif/internal/evidence"
 	"verif/internal/synccheck"
@@ -110,6 +111,8 @@ func check(id, tier string) int {
 		return c08.Run(tier, seed(), workers())
 	case "C10":
 		return c10.Run(tier, seed(), workers())
+	case "C20":
+		return c20.Run(tier, seed(), workers())
 	}
 	fmt.Fprintf(os.Stderr, "unknown property %q\n", id)
 	return 2
@@ -123,6 +126,8 @@ func replay(rp *evidence.Replay) int {
 		return c08.Replay(rp)
 	case "program:C10":
 		return c10.Replay(rp)
+	case "govl:C20":
+		return c20.Replay(rp)
 	case "chanscript":
 		return chancheck.Replay(rp)
 	case "syncscript":
